@@ -1240,6 +1240,37 @@ var plannerInputStoreExceptions = map[string]string{
 	"sqlite.normalizeIdxName|idx.Name": "idempotent normalisation: an engine-generated `sqlite_autoindex…` name is replaced, before the statement is rendered, by <table>_<columns>; the second plan sees the replaced name, skips the store and renders the same text",
 }
 
+// plannerInputStoreValidators check, per listed exception, that the store is still idempotent:
+// the guard that makes the second execution a no-op encloses it.
+var plannerInputStoreValidators = map[string]func(info *types.Info, pm map[ast.Node]ast.Node, lhs ast.Expr) bool{
+	// t.Attrs = append(t.Attrs, a) only under !sqlx.Has(t.Attrs, &<type of a>{})
+	"mysql.(state).column|t.Attrs": func(info *types.Info, pm map[ast.Node]ast.Node, lhs ast.Expr) bool {
+		for _, f := range enclosingFacts(pm, lhs) {
+			call, ok := ast.Unparen(f.expr).(*ast.CallExpr)
+			if !ok || f.val || !funcIs(calleeOf(info, call), pSqlx, "", "Has") || len(call.Args) != 2 {
+				continue
+			}
+			if types.ExprString(ast.Unparen(call.Args[0])) == types.ExprString(ast.Unparen(lhs)) {
+				return true
+			}
+		}
+		return false
+	},
+	// idx.Name = … only under strings.HasPrefix(idx.Name, "sqlite_autoindex…")
+	"sqlite.normalizeIdxName|idx.Name": func(info *types.Info, pm map[ast.Node]ast.Node, lhs ast.Expr) bool {
+		for _, f := range enclosingFacts(pm, lhs) {
+			call, ok := ast.Unparen(f.expr).(*ast.CallExpr)
+			if !ok || !f.val || !funcIs(calleeOf(info, call), "strings", "", "HasPrefix") || len(call.Args) != 2 {
+				continue
+			}
+			if s, ok := stringConst(info, call.Args[1]); ok && strings.HasPrefix(s, "sqlite_autoindex") && types.ExprString(ast.Unparen(call.Args[0])) == types.ExprString(ast.Unparen(lhs)) {
+				return true
+			}
+		}
+		return false
+	},
+}
+
 func checkPlannerInputReadOnly(c *Ctx, rule string) {
 	n := 0
 	for _, pp := range []string{pSqlx, pMysql, pPostgres, pSqlite} {
@@ -1388,6 +1419,7 @@ func checkPlannerInputReadOnly(c *Ctx, rule string) {
 			bad := ""
 			pos := fi.Decl.Pos()
 			var exceptions []string
+			pmAll := parentMap(fi.Decl)
 			store := func(l ast.Expr, at token.Pos) {
 				l = ast.Unparen(l)
 				var base ast.Expr
@@ -1413,8 +1445,11 @@ func checkPlannerInputReadOnly(c *Ctx, rule string) {
 					return
 				}
 				if _, listed := plannerInputStoreExceptions[fi.Name+"|"+types.ExprString(l)]; listed {
-					exceptions = append(exceptions, types.ExprString(l))
-					return
+					// a listed exception holds only while the reason it is listed for is visible in the code
+					if v := plannerInputStoreValidators[fi.Name+"|"+types.ExprString(l)]; v == nil || v(info, pmAll, l) {
+						exceptions = append(exceptions, types.ExprString(l))
+						return
+					}
 				}
 				if bad == "" {
 					bad, pos = types.ExprString(l), at
